@@ -8,6 +8,7 @@
    boundary of any text makes the text rejected.
    Proofs: proofs/ScanCover.v, LRSound.v (+ LRSoundInst.v by computation), ParseSound.v,
    ExpandProofs.v, IllegalReject.v, ScanLocal.v, ActionsTyped.v. *)
+Require Import Grits.spec.RefGrammar.
 Require Import Grits.Base Grits.ModeDefs Grits.Modes Grits.STypes Grits.Forms Grits.Tokens Grits.Scan
                Grits.gen.LRTables Grits.gen.LRCert Grits.LR Grits.Actions Grits.Expand
                Grits.spec.ScanSpec Grits.spec.Grammar
@@ -32,6 +33,11 @@ Theorem C12_lr_sound : forall (V : Type) (tv : tk * string -> V) (ra : Z -> list
   exists w rest, toks = w ++ rest /\ lookahead rest = tEofCode /\ Derives START (map tokz w) /\
                  Forall (fun t => tokz t <> tEofCode) w.
 Proof. exact lr_sound. Qed.
+
+(* the grammar those derivations are in IS the documented one: the productions recovered from the current tables
+   (regenerated from /repo on every run) equal the committed reference list spec/RefGrammar.v *)
+Theorem C12_grammar_is_reference : tR1 = ref_lhs_tab /\ tRhs = ref_rhs_tab.
+Proof. exact grammar_is_reference. Qed.
 
 Theorem C12_accept_consumes_all : forall s l, parse_statements s = POk l -> accepted_text s l.
 Proof. exact accept_consumes_all. Qed.
@@ -88,3 +94,4 @@ Print Assumptions C12_decls_preserved.
 Print Assumptions C12_illegal_at_boundary_rejected.
 Print Assumptions C12_insert_illegal_rejected.
 Print Assumptions C12_outside_alphabet_illegal.
+Print Assumptions C12_grammar_is_reference.
